@@ -329,8 +329,12 @@ def _simple(case: Dict[str, Any]) -> Dict[str, Any]:
                         ref_twin = ref_twin / mlt
                 else:
                     ref_twin = twin(*targs)
-        except Exception:  # noqa - twin rejects this configuration/input
-            return {"skipped": "torch twin rejects"}
+        except Exception as e_tw:  # noqa
+            # (never happens on a correct tree: the twin is built from the same options and given the module's own
+            # state_dict - a mismatch means the module's parameters are not those of the configured layer)
+            return {"violations": [{"key": ident + "|state_dict_or_input_rejected_by_torch_twin", "msg":
+                                    f"options={o}: nn.{cls} built with the same options rejects the module's state_dict / input: "
+                                    f"{type(e_tw).__name__}: {str(e_tw)[:300]}"}], "outcome": "twin_rejects"}
         torch.manual_seed(7)
         ym = m(*args)
     except Exception as e:  # noqa
@@ -339,7 +343,8 @@ def _simple(case: Dict[str, Any]) -> Dict[str, Any]:
     try:
         yf = op.unit(fx, fcfg)
     except Exception as e:  # noqa
-        return {"skipped": f"functional rejects: {type(e).__name__}"}
+        return {"violations": [{"key": ident + "|functional_form_rejects_what_the_module_accepts", "msg":
+                                f"options={o}: {type(e).__name__}: {str(e)[:300]}"}], "outcome": "functional_rejects"}
     if ym.shape != yf.shape or not torch.allclose(ym, yf, rtol=1e-12, atol=1e-14):
         viol.append({"key": ident + "|differs_from_functional", "msg": f"options={o} batch={batch}: module {tuple(ym.shape)} vs functional {tuple(yf.shape)}; "
                      f"max err {(ym - yf).abs().max().item() if ym.shape == yf.shape else 'n/a'}"})
